@@ -19,6 +19,8 @@
      AssignRO(o,p,v) the same call on a read-only collection: ParameterCollection.__setattr__ raises RuntimeError
                      before the setter runs; NOTHING changes (no value, no flag) -- also for the in-place mutators.
      SetCache(o,w)   ArmiObject._setCache / Material._setCache.
+     ReadGrid(o)     the public grid getters (HexGrid.pitch / Core.getAssemblyPitch ...): no effect -- stated as an action
+                     because a getter may memoise, and the observation of the grid includes what the getters answer.
      SetGrid(o,g)    HexGrid.changePitch / CartesianGrid.changePitch / assignment of axial bounds
                      (Assembly.reestablishBlockOrder style `grid._bounds = ...`).
      Copy(o,how)     copy.deepcopy / pickle round trip of the subtree of o: ParameterCollection.__deepcopy__
@@ -90,7 +92,11 @@ CONSTANTS N,            \* object ids 1..N : originals 1..Len(Parent0), the rest
                         \* "db" (counter := largest stored serial; only to show that TLC refutes it)
           DbCls,        \* classes whose detached roots can be written to / loaded from a database (Reactor)
           CopyCls,      \* classes whose objects are copied (model-checking bound; all classes in the small instances)
-          CallsOf       \* class -> names of the public mutators of the read-only family (CallRO)
+          CallsOf,      \* class -> names of the public mutators of the read-only family (CallRO)
+          Unset0,       \* <<class, param>> whose built value 0 means UNSET: a parameter without default that nobody has
+                        \* assigned yet.  It can be left (Assign v # 0) but not re-entered by an assignment; Exit and
+                        \* copies must reproduce it (the backup stores "nothing" for it and must put "nothing" back)
+          Link0         \* per original: the object its linked dimension resolves through (0 = no linked dimension)
 
 Node   == 1..N
 NOrig  == Len(Parent0)
@@ -101,7 +107,9 @@ HasBk(x)   == (x \div 16) % 2 = 1              \* x & SINCE_BACKUP
 ClearBk(x) == IF HasBk(x) THEN x - 16 ELSE x    \* x & ~SINCE_BACKUP
 Classes == {Cls0[i] : i \in 1..NOrig}
 
+Hidden == 99     \* a link that leaves the tree of its owner (as built: to a private copy, when a component is copied alone)
 VARIABLES parent, cls, live,
+          linkto,   \* the object a component's linked dimension (bond id = "fuel.od") resolves through; 0 = none
           val, rest, cass, cbak, dass, dbak,
           cache, cachebak, mcache, mcachebak, grid, gbak,
           frames, ro, serial, nextSerial,
@@ -109,7 +117,7 @@ VARIABLES parent, cls, live,
           ident,    \* which object an object is an incarnation of (itself, or what a loaded object was written from)
           err, act,
           bad       \* names of the step properties the last step violated (always {} in a correct design)
-tree  == <<parent, cls, live>>
+tree  == <<parent, cls, live, linkto>>
 pvars == <<val, rest, cass, cbak, dass, dbak>>
 cvars == <<cache, cachebak, mcache, mcachebak>>
 gvars == <<grid, gbak>>
@@ -162,6 +170,9 @@ CopyEqualStep ==
         /\ \A o \in live : val'[o] = val[o] /\ rest'[o] = rest[o] /\ grid'[o] = grid[o] /\ cache'[o] = cache[o]
                            /\ cass'[o] = cass[o] /\ serial'[o] = serial[o] /\ parent'[o] = parent[o]
         /\ \A i \in 1..Len(act'.ids) : act'.ids[i][1] = act'.x => parent'[act'.ids[i][2]] = 0
+        \* no link of the copy resolves through an object of the original (and none of the original through the copy)
+        /\ \A i \in 1..Len(act'.ids) : linkto'[act'.ids[i][2]] \notin live
+        /\ \A o \in live : linkto'[o] = linkto[o]
 
 \* independence: an assignment / grid change / cache write on one object shows on no other object
 OnlyTargetChangesStep ==
@@ -254,6 +265,7 @@ Exit ==
 AssignV(o, p, v) ==
     /\ LevelOK
     /\ "Assign" \in Acts /\ o \in live /\ ~ro[o] /\ p \in ParOf[cls[o]]
+    /\ (<<cls[o], p>> \in Unset0 => v # 0)
     /\ val'  = [val EXCEPT ![o][p] = v]
     /\ cass' = [cass EXCEPT ![o] = ALL]
     /\ dass' = [dass EXCEPT ![cls[o]][p] = ALL]
@@ -305,6 +317,15 @@ SetGridV(o, g) ==
     /\ Rec
 SetGrid(o, g) == g \in 0..(NGrid - 1) /\ o \in live /\ g # grid[o] /\ SetGridV(o, g)
 
+\* reading the public getters of a grid (HexGrid.pitch, Core.getAssemblyPitch, ...): changes nothing -- but a getter may
+\* remember what it computed, and what it remembers inside a scope must not be what it answers after the scope
+ReadGrid(o) ==
+    /\ LevelOK
+    /\ "ReadGrid" \in Acts /\ o \in live /\ HasGrid(o)
+    /\ UNCHANGED vars
+    /\ Ok([n |-> "ReadGrid", o |-> o])
+    /\ Rec
+
 (* ---------- copies ---------- *)
 FreeIds == Node \ live
 Copy(o, how) ==
@@ -319,6 +340,12 @@ Copy(o, how) ==
        IN /\ live'   = live \cup new
           /\ parent' = [y \in Node |-> IF y \in new THEN (IF from(y) = o THEN 0 ELSE to(parent[from(y)])) ELSE parent[y]]
           /\ cls'    = [y \in Node |-> IF y \in new THEN cls[from(y)] ELSE cls[y]]
+          \* links are re-made inside the copy: the copy's bond resolves through the COPY's fuel ("later changes to
+          \* one do not show in the other"); a link that leaves the copied subtree cannot point into the original
+          /\ linkto' = [y \in Node |-> IF y \in new
+                                       THEN (IF linkto[from(y)] = 0 THEN 0
+                                             ELSE IF linkto[from(y)] \in Under(o) THEN to(linkto[from(y)]) ELSE Hidden)
+                                       ELSE linkto[y]]
           /\ val'    = [y \in Node |-> IF y \in new THEN val[from(y)] ELSE val[y]]
           /\ rest'   = [y \in Node |-> IF y \in new THEN rest[from(y)] ELSE rest[y]]
           /\ cass'   = [y \in Node |-> IF y \in new THEN (IF how = "DeepCopy" THEN ALL ELSE cass[from(y)]) ELSE cass[y]]
@@ -359,6 +386,7 @@ CallRO(o, m) ==
 
 (* ---------- database (only what matters for serial numbers and read-only loading) ---------- *)
 NoDb == [has |-> FALSE, root |-> 0, objs |-> <<>>, parent |-> [o \in Node |-> 0], cls |-> [o \in Node |-> Cls0[1]],
+         linkto |-> [o \in Node |-> 0],
          serial |-> [o \in Node |-> 0], ident |-> [o \in Node |-> 0], val |-> [o \in Node |-> Zero],
          rest |-> [o \in Node |-> 0], grid |-> [o \in Node |-> 0], max |-> 0]
 \* Database.writeToDB(r): the layout stores the serial number of every object; the reactor is not changed
@@ -366,6 +394,7 @@ WriteDb(r) ==
     /\ LevelOK
     /\ "WriteDb" \in Acts /\ r \in live /\ parent[r] = 0 /\ cls[r] \in DbCls
     /\ db' = [has |-> TRUE, root |-> r, objs |-> SortedSeq(Under(r)), parent |-> parent, cls |-> cls, serial |-> serial,
+              linkto |-> linkto,
               ident |-> ident, val |-> val, rest |-> rest, grid |-> grid, max |-> Max({serial[o] : o \in Under(r)})]
     /\ UNCHANGED <<tree, pvars, cvars, gvars, frames, ro, serial, nextSerial, ident>>
     /\ Ok([n |-> "WriteDb", r |-> r])
@@ -388,6 +417,9 @@ LoadDbV(how, useDb, nval, nrest, ncass, ngrid) ==
        IN /\ live'   = live \cup new
           /\ parent' = [y \in Node |-> IF y \in new THEN (IF from(y) = db.root THEN 0 ELSE to(db.parent[from(y)])) ELSE parent[y]]
           /\ cls'    = [y \in Node |-> IF y \in new THEN db.cls[from(y)] ELSE cls[y]]
+          /\ linkto' = [y \in Node |-> IF y \in new
+                                       THEN (IF db.linkto[from(y)] \in {0, Hidden} THEN db.linkto[from(y)] ELSE to(db.linkto[from(y)]))
+                                       ELSE linkto[y]]
           /\ val'    = [y \in Node |-> IF y \in new THEN (IF useDb THEN db.val[from(y)] ELSE nval[y]) ELSE val[y]]
           /\ rest'   = [y \in Node |-> IF y \in new THEN (IF useDb THEN db.rest[from(y)] ELSE nrest[y]) ELSE rest[y]]
           /\ cass'   = [y \in Node |-> IF y \in new THEN (IF useDb THEN ALL ELSE ncass[y]) ELSE cass[y]]
@@ -409,6 +441,7 @@ InitWith(p0, c0) ==
     /\ parent = [o \in Node |-> IF o <= n0 THEN p0[o] ELSE 0]
     /\ cls    = [o \in Node |-> IF o <= n0 THEN c0[o] ELSE c0[1]]
     /\ live   = 1..n0
+    /\ linkto = [o \in Node |-> IF o <= Len(Link0) THEN Link0[o] ELSE 0]
     /\ val = [o \in Node |-> Zero] /\ rest = [o \in Node |-> 0]
     /\ cass = [o \in Node |-> ALL] /\ cbak = [o \in Node |-> <<>>]
     /\ dass = [c \in Classes |-> [p \in Par |-> NEVER]] /\ dbak = [c \in Classes |-> [p \in Par |-> <<>>]]
@@ -427,6 +460,7 @@ Step ==
     \/ \E o \in Node : \E p \in Par : \E v \in Val : Assign(o, p, v) \/ AssignRO(o, p, v)
     \/ \E o \in Node : \E w \in {"obj", "mat"} : SetCache(o, w)
     \/ \E o \in Node : \E g \in 0..(NGrid - 1) : SetGrid(o, g)
+    \/ \E o \in Node : ReadGrid(o)
     \/ \E o \in Node : Copy(o, "DeepCopy") \/ Copy(o, "Pickle")
     \/ \E r \in Node : MakeReadOnly(r)
     \/ \E o \in Node : \E m \in UNION {CallsOf[c] : c \in DOMAIN CallsOf} : CallRO(o, m)
@@ -502,11 +536,12 @@ Obs == [val    |-> [o \in live |-> val[o]],
         ro     |-> [o \in live |-> ro[o]],
         parent |-> [o \in live |-> parent[o]],
         cls    |-> [o \in live |-> cls[o]],
+        link   |-> [o \in live |-> linkto[o]],
         sameSerialAs |-> [o \in live |-> SameSerialAs(o)],
         depth  |-> Len(frames),
         err    |-> err]
 \* identity of a state for the edge graph (everything but err/act)
-Vars == [parent |-> [o \in live |-> parent[o]], cls |-> [o \in live |-> cls[o]],
+Vars == [parent |-> [o \in live |-> parent[o]], cls |-> [o \in live |-> cls[o]], link |-> [o \in live |-> linkto[o]],
          val |-> [o \in live |-> val[o]], cass |-> [o \in live |-> cass[o]], cbak |-> [o \in live |-> cbak[o]],
          dass |-> dass, dbak |-> dbak,
          cache |-> [o \in live |-> cache[o]], cachebak |-> [o \in live |-> cachebak[o]],
